@@ -5,7 +5,9 @@ from .hist import history  # noqa: F401  (resolved by the runner)
 PROPS = ["C08"]
 META = dict(
     module="scenarios.c08_liquidity", level="model_checking",
-    bounds=dict(quick=hist.BOUNDS_QUICK, thorough=hist.BOUNDS_THOROUGH),
+    bounds=dict(quick=hist.BOUNDS_QUICK + "; competition plans (an earlier order followed by a funded market sell), "
+                "partial fills against off-grid liquidity, precisions (2,0) [all classes] and (8,8) [market, limit]",
+                thorough=hist.BOUNDS_THOROUGH),
     stubs=hist.BASE_STUBS, assumptions=hist.BASE_ASSUMPTIONS, outside=hist.BASE_OUTSIDE,
     required_covers=["end of history", "an order was accepted", "a request was rejected: place"],
 )
@@ -26,4 +28,7 @@ def extra_jobs(tier):
                 kinds=["limit", "stop_limit"]),
            dict(plan="single", depth=2, bp=2, qp=2, liq="vsi", vols=["10.55", "127.83333333"], namounts=3,
                 kinds=["limit"])]
+    # other precision configurations (a quote precision of 0 and equal precisions), every order class
+    ps += [dict(plan="single", depth=2, bp=2, qp=0, kinds=["stop", "stop_limit"]),      # (market, limit: standard plans)
+           dict(plan="single", depth=2, bp=8, qp=8, kinds=["market", "limit"])]
     return hist.jobs_for(PROPS, ps)
